@@ -2191,6 +2191,327 @@ theorem inv_order (ops : List Op) (h : MHeap) (hi : Inv h) (ha : a2dFree h ops)
   obtain ⟨o', ho', he⟩ := (history_evolves ops h hi ha).1 a o ho
   exact ⟨o', ho', he.keys, he.keys.nodup⟩
 
+/-! ## freeze / seal / preventExtensions establish their predicates -/
+
+def frozenP (p : MProp) : Prop := tb p.mode.c = false ∧ tb p.mode.w = false
+
+theorem freeze_prop_frozen (prop : MProp) (hp : WFProp prop) :
+    ((freezeDesc prop).2 = false → frozenP prop) ∧
+    (∀ p, defineProp prop (freezeDesc prop).1 = some (some p) → frozenP p) ∧
+    (defineProp prop (freezeDesc prop).1 = some none → frozenP prop) := by
+  obtain ⟨v, ⟨w, e, c⟩⟩ := prop
+  cases v with
+  | nil => exact hp.elim
+  | val v =>
+    cases w <;> cases e <;> cases c <;>
+      simp [frozenP, freezeDesc, defineProp, defineSwitch, MProp.isEmpty, MProp.isGenericDescriptor, MProp.isDataDescriptor,
+        MProp.isAccessorDescriptor, mergeMode_eq, tritMerge, tb, tset, onbit] <;> (intro p hp; subst hp; simp [tb])
+  | gs g s =>
+    obtain ⟨hg, hs, hw⟩ := hp
+    simp only at hw
+    subst hw
+    cases g <;> cases s <;> first | exact absurd rfl hg | exact absurd rfl hs |
+      (cases e <;> cases c <;>
+        simp [frozenP, freezeDesc, defineProp, defineSwitch, MProp.isEmpty, MProp.isGenericDescriptor, MProp.isDataDescriptor,
+          MProp.isAccessorDescriptor, mergeMode_eq, tritMerge, tb, tset, onbit, normSlot] <;> (intro p hp; subst hp; simp [tb]))
+
+theorem mem_akeys_of_alookup {α} {n : Name} {x : α} {l : List (Name × α)} (h : alookup n l = some x) : n ∈ akeys l := by
+  have := alookup_mem h
+  simp only [akeys, List.mem_map]
+  exact ⟨(n, x), this, rfl⟩
+
+theorem alookup_of_mem_nodup {α} : ∀ (l : List (Name × α)), (akeys l).Nodup → ∀ kp, kp ∈ l → alookup kp.1 l = some kp.2 := by
+  intro l
+  induction l with
+  | nil => intro _ kp h; cases h
+  | cons kq t ih =>
+    intro hnd kp hkp
+    obtain ⟨k, q⟩ := kq
+    simp only [akeys, List.map, List.nodup_cons] at hnd
+    rcases List.mem_cons.1 hkp with h | h
+    · subst h; simp [alookup]
+    · have hne : k ≠ kp.1 := by
+        intro e
+        apply hnd.1
+        simp only [List.mem_map]
+        exact ⟨kp, h, e.symm⟩
+      simp only [alookup, hne, if_false]
+      exact ih hnd.2 kp h
+
+theorem freezeStep_frozen (o o' : MObj) (n : Name) (prop : MProp) (ho : WFObj o) (hl : alookup n o.props = some prop)
+    (h : freezeStep o n prop = some o') : ∃ p, alookup n o'.props = some p ∧ frozenP p := by
+  obtain ⟨f1, f2, f3⟩ := freeze_prop_frozen prop (ho _ (alookup_mem hl))
+  simp only [freezeStep] at h
+  by_cases hf : (freezeDesc prop).2 = true
+  · simp only [hf, if_true] at h
+    rw [defineOwn_eq, hl] at h
+    simp only at h
+    cases hm : defineProp prop (freezeDesc prop).1 with
+    | none => rw [hm] at h; simp at h
+    | some r =>
+      rw [hm] at h
+      simp only [Option.map_some, Option.some.injEq] at h
+      subst h
+      cases r with
+      | none => exact ⟨prop, hl, f3 hm⟩
+      | some p => exact ⟨p, by simp [alookup_aupsert], f2 p hm⟩
+  · simp only [hf] at h
+    cases h
+    exact ⟨prop, hl, f1 (by simpa using hf)⟩
+
+theorem frozenP_stable {p p' : MProp} (hf : frozenP p) (hs : PStable p p') : frozenP p' := by
+  rw [PStable_iff] at hs
+  exact ⟨hs.1, (hs.2.2.2 hf.2).2⟩
+
+/-- after a freeze loop that did not throw, every visited name holds a frozen property -/
+theorem freezeLoop_frozen : ∀ (ns : List Name) (o : MObj), WFObj o → (freezeLoop o ns).2 = false →
+    ∀ n, n ∈ ns → ∀ p, alookup n (freezeLoop o ns).1.props = some p → frozenP p := by
+  intro ns
+  induction ns with
+  | nil => intro o _ _ n hn; cases hn
+  | cons n0 t ih =>
+    intro o ho hb n hn p hp
+    rw [freezeLoop_cons] at hb hp
+    cases hl : alookup n0 o.props with
+    | none =>
+      rw [hl] at hb hp
+      simp only at hb hp
+      rcases List.mem_cons.1 hn with e | hn'
+      · subst e
+        have hk := (freezeLoop_refines t o ho).2.2.2.2
+        have := mem_akeys_of_alookup hp
+        rw [hk] at this
+        exact absurd this (not_mem_akeys_of_alookup_none n o.props hl)
+      · exact ih o ho hb n hn' p hp
+    | some prop =>
+      rw [hl] at hb hp
+      simp only at hb hp
+      cases hs : freezeStep o n0 prop with
+      | none => rw [hs] at hb; cases hb
+      | some o1 =>
+        rw [hs] at hb hp
+        simp only at hb hp
+        have hw1 := (freezeStep_wf o o1 n0 prop ho hl hs).1
+        by_cases e : n = n0
+        · subst e
+          obtain ⟨p1, hl1, hf1⟩ := freezeStep_frozen o o1 n prop ho hl hs
+          obtain ⟨p', hl', hs'⟩ := (freezeLoop_evolves t o1 hw1).stable n p1 hl1 hf1.1
+          rw [hl'] at hp
+          cases hp
+          exact frozenP_stable hf1 hs'
+        · rcases List.mem_cons.1 hn with e' | hn'
+          · exact absurd e' e
+          · exact ih o1 hw1 hb n hn' p hp
+
+/-- **isFrozen (freeze o)**: when Object.freeze returns normally, the object is non-extensible and
+    every own property is non-configurable and non-writable, i.e. `Object.isFrozen` observes true -/
+theorem freeze_isFrozen (h : MHeap) (a : Addr) (o : MObj) (hi : Inv h) (ho : h[a]? = some o)
+    (hnd : (akeys o.props).Nodup) (hok : (step h (.freeze a)).2.1 = .ok) :
+    ∃ o', (step h (.freeze a)).1[a]? = some o' ∧ (observeObj (step h (.freeze a)).1 a o').isFrozen = true := by
+  have hw := hi.1 a o ho
+  have ha : a < h.length := by
+    rcases Nat.lt_or_ge a h.length with hlt | hge
+    · exact hlt
+    · rw [List.getElem?_eq_none hge] at ho; cases ho
+  obtain ⟨_, _, _, _, hk⟩ := freezeLoop_refines (akeys o.props) o hw
+  have hfr := freezeLoop_frozen (akeys o.props) o hw
+  simp only [step, ho] at hok ⊢
+  cases hr : freezeLoop o (akeys o.props) with
+  | mk o' b =>
+    rw [hr] at hok hk hfr
+    cases b with
+    | true => simp at hok
+    | false =>
+      simp only at hk hfr ⊢
+      refine ⟨{ o' with ext := false }, by simp [List.getElem?_set, ha], ?_⟩
+      simp only [observeObj, Bool.false_eq_true, if_false, List.all_eq_true]
+      intro kp hkp
+      have hnd' : (akeys o'.props).Nodup := by rw [hk]; exact hnd
+      have hl := alookup_of_mem_nodup o'.props hnd' kp hkp
+      have hmem : kp.1 ∈ akeys o.props := by rw [← hk]; exact mem_akeys_of_alookup hl
+      have := hfr trivial kp.1 hmem kp.2 hl
+      generalize kp.2 = q at this
+      obtain ⟨v, ⟨w, e, c⟩⟩ := q
+      simp only [frozenP] at this
+      simp [this.1, this.2]
+
+def sealedP (p : MProp) : Prop := tb p.mode.c = false
+
+theorem seal_prop_sealed (prop : MProp) (hp : WFProp prop) :
+    ((sealDesc prop).2 = false → sealedP prop) ∧
+    (∀ p, defineProp prop (sealDesc prop).1 = some (some p) → sealedP p) ∧
+    (defineProp prop (sealDesc prop).1 = some none → sealedP prop) := by
+  obtain ⟨v, ⟨w, e, c⟩⟩ := prop
+  cases v with
+  | nil => exact hp.elim
+  | val v =>
+    cases w <;> cases e <;> cases c <;>
+      simp [sealedP, sealDesc, defineProp, defineSwitch, MProp.isEmpty, MProp.isGenericDescriptor, MProp.isDataDescriptor,
+        MProp.isAccessorDescriptor, mergeMode_eq, tritMerge, tb, tset, onbit] <;> (intro p hp; subst hp; simp [tb])
+  | gs g s =>
+    obtain ⟨hg, hs, hw⟩ := hp
+    simp only at hw
+    subst hw
+    cases g <;> cases s <;> first | exact absurd rfl hg | exact absurd rfl hs |
+      (cases e <;> cases c <;>
+        simp [sealedP, sealDesc, defineProp, defineSwitch, MProp.isEmpty, MProp.isGenericDescriptor, MProp.isDataDescriptor,
+          MProp.isAccessorDescriptor, mergeMode_eq, tritMerge, tb, tset, onbit, normSlot] <;> (intro p hp; subst hp; simp [tb]))
+
+theorem sealStep_sealed (o o' : MObj) (n : Name) (prop : MProp) (ho : WFObj o) (hl : alookup n o.props = some prop)
+    (h : sealStep o n prop = some o') : ∃ p, alookup n o'.props = some p ∧ sealedP p := by
+  obtain ⟨f1, f2, f3⟩ := seal_prop_sealed prop (ho _ (alookup_mem hl))
+  simp only [sealStep] at h
+  by_cases hf : (sealDesc prop).2 = true
+  · simp only [hf, if_true] at h
+    rw [defineOwn_eq, hl] at h
+    simp only at h
+    cases hm : defineProp prop (sealDesc prop).1 with
+    | none => rw [hm] at h; simp at h
+    | some r =>
+      rw [hm] at h
+      simp only [Option.map_some, Option.some.injEq] at h
+      subst h
+      cases r with
+      | none => exact ⟨prop, hl, f3 hm⟩
+      | some p => exact ⟨p, by simp [alookup_aupsert], f2 p hm⟩
+  · simp only [hf] at h
+    cases h
+    exact ⟨prop, hl, f1 (by simpa using hf)⟩
+
+theorem sealLoop_sealed : ∀ (ns : List Name) (o : MObj), WFObj o → (sealLoop o ns).2 = false →
+    ∀ n, n ∈ ns → ∀ p, alookup n (sealLoop o ns).1.props = some p → sealedP p := by
+  intro ns
+  induction ns with
+  | nil => intro o _ _ n hn; cases hn
+  | cons n0 t ih =>
+    intro o ho hb n hn p hp
+    rw [sealLoop_cons] at hb hp
+    cases hl : alookup n0 o.props with
+    | none =>
+      rw [hl] at hb hp
+      simp only at hb hp
+      rcases List.mem_cons.1 hn with e | hn'
+      · subst e
+        have hk := (sealLoop_refines t o ho).2.2.2.2
+        have := mem_akeys_of_alookup hp
+        rw [hk] at this
+        exact absurd this (not_mem_akeys_of_alookup_none n o.props hl)
+      · exact ih o ho hb n hn' p hp
+    | some prop =>
+      rw [hl] at hb hp
+      simp only at hb hp
+      cases hs : sealStep o n0 prop with
+      | none => rw [hs] at hb; cases hb
+      | some o1 =>
+        rw [hs] at hb hp
+        simp only at hb hp
+        have hw1 := (sealStep_wf o o1 n0 prop ho hl hs).1
+        by_cases e : n = n0
+        · subst e
+          obtain ⟨p1, hl1, hf1⟩ := sealStep_sealed o o1 n prop ho hl hs
+          obtain ⟨p', hl', hs'⟩ := (sealLoop_evolves t o1 hw1).stable n p1 hl1 hf1
+          rw [hl'] at hp
+          cases hp
+          exact ((PStable_iff p1 p).1 hs').1
+        · rcases List.mem_cons.1 hn with e' | hn'
+          · exact absurd e' e
+          · exact ih o1 hw1 hb n hn' p hp
+
+/-- **isSealed (seal o)** -/
+theorem seal_isSealed (h : MHeap) (a : Addr) (o : MObj) (hi : Inv h) (ho : h[a]? = some o)
+    (hnd : (akeys o.props).Nodup) (hok : (step h (.seal a)).2.1 = .ok) :
+    ∃ o', (step h (.seal a)).1[a]? = some o' ∧ (observeObj (step h (.seal a)).1 a o').isSealed = true := by
+  have hw := hi.1 a o ho
+  have ha : a < h.length := by
+    rcases Nat.lt_or_ge a h.length with hlt | hge
+    · exact hlt
+    · rw [List.getElem?_eq_none hge] at ho; cases ho
+  obtain ⟨_, _, _, _, hk⟩ := sealLoop_refines (akeys o.props) o hw
+  have hfr := sealLoop_sealed (akeys o.props) o hw
+  simp only [step, ho] at hok ⊢
+  cases hr : sealLoop o (akeys o.props) with
+  | mk o' b =>
+    rw [hr] at hok hk hfr
+    cases b with
+    | true => simp at hok
+    | false =>
+      simp only at hk hfr ⊢
+      refine ⟨{ o' with ext := false }, by simp [List.getElem?_set, ha], ?_⟩
+      simp only [observeObj, Bool.false_eq_true, if_false, List.all_eq_true]
+      intro kp hkp
+      have hnd' : (akeys o'.props).Nodup := by rw [hk]; exact hnd
+      have hl := alookup_of_mem_nodup o'.props hnd' kp hkp
+      have hmem : kp.1 ∈ akeys o.props := by rw [← hk]; exact mem_akeys_of_alookup hl
+      have := hfr trivial kp.1 hmem kp.2 hl
+      generalize kp.2 = q at this
+      obtain ⟨v, ⟨w, e, c⟩⟩ := q
+      simp only [sealedP] at this
+      simp [this]
+
+/-- **isExtensible (preventExtensions o) = false** -/
+theorem preventExt_notExtensible (h : MHeap) (a : Addr) (o : MObj) (ho : h[a]? = some o) :
+    ∃ o', (step h (.preventExt a)).1[a]? = some o' ∧ (observeObj (step h (.preventExt a)).1 a o').ext = false := by
+  have ha : a < h.length := by
+    rcases Nat.lt_or_ge a h.length with hlt | hge
+    · exact hlt
+    · rw [List.getElem?_eq_none hge] at ho; cases ho
+  simp only [step, ho]
+  exact ⟨{ o with ext := false }, by simp [List.getElem?_set, ha], rfl⟩
+
+/-- a step leaves the heap alone, overwrites one slot, or (create) appends the new object -/
+theorem step_shape (h : MHeap) (op : Op) :
+    (step h op).1 = h ∨ (∃ a x, (step h op).1 = h.set a x) ∨
+    (∃ p l, op = .create p l ∧ (step h op).1 = h ++ [(defineList ⟨p, true, []⟩ l).1]) := by
+  rcases op with ⟨s, a, n, v⟩ | ⟨s, a, n⟩ | ⟨a, n, d⟩ | ⟨a, l⟩ | ⟨p, l⟩ | ⟨a⟩ | ⟨a⟩ | ⟨a⟩ <;>
+    simp only [step, put, delete] <;> repeat' split
+  all_goals first
+    | exact Or.inl rfl
+    | exact Or.inr (Or.inl ⟨_, _, rfl⟩)
+    | exact Or.inr (Or.inr ⟨_, _, rfl, rfl⟩)
+
+/-- no object has a key twice -/
+def NodupHeap (h : MHeap) : Prop := ∀ (a : Nat) (o : MObj), h[a]? = some o → (akeys o.props).Nodup
+
+theorem step_nodup (h : MHeap) (op : Op) (hi : Inv h) (ha : a2dOf h op = false) (hn : NodupHeap h) :
+    NodupHeap (step h op).1 := by
+  intro a o' ho'
+  by_cases hlt : a < h.length
+  · have ho : h[a]? = some h[a] := List.getElem?_eq_getElem hlt
+    obtain ⟨o'', ho'', he⟩ := (step_evolves h op hi ha).1 a _ ho
+    rw [ho'] at ho''
+    cases ho''
+    exact he.keys.nodup (hn a _ ho)
+  · have hge : h.length ≤ a := Nat.le_of_not_lt hlt
+    rcases step_shape h op with e | ⟨b, x, e⟩ | ⟨p, l, eop, e⟩
+    · rw [e, List.getElem?_eq_none hge] at ho'; cases ho'
+    · rw [e, List.getElem?_eq_none (by simpa using hge)] at ho'; cases ho'
+    · subst eop
+      rw [e] at ho'
+      have hw0 : WFObj (⟨p, true, []⟩ : MObj) := fun kp hkp => by cases hkp
+      have hev := (defineList_evolves l ⟨p, true, []⟩ hw0 (by simpa [a2dOf] using ha)).1
+      rw [List.getElem?_append_right hge] at ho'
+      cases hd : a - h.length with
+      | zero =>
+        rw [hd] at ho'
+        simp at ho'
+        subst ho'
+        exact hev.keys.nodup List.nodup_nil
+      | succ k => rw [hd] at ho'; simp at ho'
+
+/-- **no key twice, ever**: every object of every heap reachable from the empty heap has pairwise
+    distinct keys (outside `acc_to_data_keeps_accessor`) -/
+theorem history_nodup : ∀ (ops : List Op) (h : MHeap), Inv h → a2dFree h ops → NodupHeap h →
+    NodupHeap (heapAfter h ops) := by
+  intro ops
+  induction ops with
+  | nil => intro h _ _ hn; exact hn
+  | cons op ops ih =>
+    intro h hi ha hn
+    exact ih _ (step_evolves h op hi ha.1).2 ha.2 (step_nodup h op hi ha.1 hn)
+
+theorem nodup_from_empty (ops : List Op) (ha : a2dFree [] ops) : NodupHeap (heapAfter [] ops) :=
+  history_nodup ops [] inv_nil ha (fun a o h => by simp at h)
+
 /-! ## Non-vacuity of the hypotheses -/
 
 /-- a heap with a data and an accessor property … -/
@@ -2276,5 +2597,13 @@ example : devRun [] wForIn = [] := by decide
 def wStrict : List Op := [.create none [], .preventExt 0, .put true 0 0 4]
 example : run [] wStrict ≠ Spec.run [] wStrict := by decide
 example : devRun [] wStrict = ["strict_ignored"] := by decide
+
+/-- the invariant theorems are not vacuous: `hNV2` avoids `acc_to_data_keeps_accessor`, object 0 holds
+    after step 1 a property that later becomes non-configurable and non-writable, … -/
+example : a2dFree [] hNV2 := a2dFree_of_devRun hNV2 [] (by decide)
+example : Inv (heapAfter [] hNV2) := (history_evolves hNV2 [] inv_nil (a2dFree_of_devRun hNV2 [] (by decide))).2
+/-- … and a history that passes through `generic_loses_writable` (so `history_refines` does not
+    apply) is still covered by the invariants. -/
+example : a2dFree [] wGeneric := a2dFree_of_devRun wGeneric [] (by decide)
 
 end OttoVerif.C07.Thm
